@@ -73,6 +73,8 @@ WRAPS = {
     "hashset": ("(hashset {x})", "(car (hashset->list {w}))"),
     "struct": ("(wrap2 {x} 1)", "(wrap2-a {w})"),
     "boxbox": ("(box {x})", "(unbox {w})"),
+    "strongbox": ("(box-strong {x})", "(unbox-strong {w})"),                       # SteelVal::Boxed
+    "strongset": ("(let ((sb (box-strong 0))) (set-strong-box! sb {x}) sb)", "(unbox-strong {w})"),
     "mvec": ("(mutable-vector 0 {x})", "(mut-vector-ref {w} 1)"),
     "closure": ("(let ((y {x})) (lambda () y))", "({w})"),
     "stream": ("(stream-cons {x} (lambda () empty-stream))", "(stream-car {w})"),
@@ -113,7 +115,7 @@ class Scen:
 
 
 SHAPES = ["global", "local", "argument", "closure", "cont_closed", "cont_open", "cont_open_tail", "handler",
-          "handler_macro", "dynwind", "tls", "hostroot", "thread", "thread_result", "channel", "parameter", "map_acc", "fold_acc", "transduce_acc",
+          "handler_macro", "dynwind", "tls", "hostroot", "thread", "thread_tls", "thread_result", "channel", "parameter", "map_acc", "fold_acc", "transduce_acc",
           "vector_fill", "apply_args", "nested_defs", "cycle", "recycler"]
 
 
@@ -194,6 +196,18 @@ def scenario(rng, idx, shape, kind, wraps, churn):
                 "(channel/recv (channels-receiver back%d))\n%s\n(channel/send (channels-sender chs%d) 'go)\n(thread-join! th%d)") % (
             idx, idx, idx, E, idx, idx, R("x"), idx, churn, idx, idx)
         exp = "(%d)" % t1
+    elif shape == "thread_tls":
+        # the object lives only in the thread-local-storage slot of ANOTHER thread, which is blocked on a
+        # channel while this thread collects and churns; the other thread then reads (writes, reads) its slot
+        text = ("(define tt%d (make-tls 0))\n(define chs%d (channels/new))\n(define back%d (channels/new))\n"
+                "(define th%d (spawn-native-thread (lambda () (set-tls! tt%d %s) (channel/send (channels-sender back%d) 'ready) "
+                "(channel/recv (channels-receiver chs%d)) (let ((r1 %s)) %s (channel/send (channels-sender back%d) 'ready) "
+                "(channel/recv (channels-receiver chs%d)) (list r1 %s)))))\n"
+                "(channel/recv (channels-receiver back%d))\n%s\n(channel/send (channels-sender chs%d) 'go)\n"
+                "(channel/recv (channels-receiver back%d))\n%s\n(channel/send (channels-sender chs%d) 'go)\n(thread-join! th%d)") % (
+            idx, idx, idx, idx, idx, E, idx, idx, R("(get-tls tt%d)" % idx), W("(get-tls tt%d)" % idx, t2), idx, idx,
+            R("(get-tls tt%d)" % idx), idx, churn, idx, idx, churn, idx, idx)
+        exp = "(%d %d)" % (t1, t2)
     elif shape == "thread_result":
         # the object is the result of a finished thread that has not been joined yet
         text = ("(define done%d (channels/new))\n"
@@ -260,7 +274,7 @@ def valid(shape, kind, wraps):
         for i, w in enumerate(wraps):
             if w in ("hashkey", "hashset") and i > 0 and wraps[i - 1] not in ("none", "list", "pair", "pairc", "ivec", "boxbox"):
                 return False
-    if shape == "cycle" and (any(w in ("hashkey", "hashset", "closure", "streamk", "transducer", "reducer", "promise", "stream") for w in wraps)):
+    if shape == "cycle" and (any(w in ("hashkey", "hashset", "closure", "streamk", "transducer", "reducer", "promise", "stream", "strongset") for w in wraps)):
         return False
     if shape == "cycle" and kind == "fld":
         return True
@@ -270,7 +284,9 @@ def valid(shape, kind, wraps):
 def gen_program(rng, nscen, mode, directed=None):
     """mode: ('every', n) | ('explicit',).  Returns (text, [Scen])."""
     if mode[0] == "every":
-        churn = "(garbage (+ 40 (total-slots)))"
+        # while the garbage is produced a full collection at every 61st allocation is enough (every slot that a
+        # collection freed is handed out again before the churn ends); the scenario's own allocations stay at n
+        churn = "(begin (#%%verif-gc-every 61) (garbage (+ 40 (total-slots))) (#%%verif-gc-every %d) 0)" % mode[1]
         pre = PREAMBLE + "(#%%verif-gc-every %d)\n0" % mode[1]
     else:
         churn = "(begin (#%gc-collect) (garbage (+ 40 (total-slots))))"
@@ -343,6 +359,7 @@ def check_programs(ctx, items, stats, label, timeout=300):
     results = C.pool_map(work, chunks, workers=nb)
     for chunk, (res, rc, tail) in zip(chunks, results):
         prev_stale = 0
+        prev_fc = 0
         for j, (text, scens, mode) in enumerate(chunk):
             stats["programs"] += 1
             if j >= len(res):
@@ -370,8 +387,8 @@ def check_programs(ctx, items, stats, label, timeout=300):
                         continue
                 bad.append((i, s, got))
             if st:
-                stats["full_collections"] += st[9] - stats["_fc"]
-                stats["_fc"] = st[9]
+                stats["full_collections"] += st[9] - prev_fc
+                prev_fc = st[9]
             if stale:
                 stats["stale"] += stale
             if bad or stale:
@@ -511,7 +528,7 @@ def directed_list():
             out.append((shape, kind, ["none"]))
     for w in WRAP_NAMES[1:]:
         for kind in KINDS:
-            for shape in ("global", "local", "closure", "cont_closed", "thread"):
+            for shape in ("global", "local", "closure", "cont_closed", "thread", "thread_tls"):
                 if valid(shape, kind, [w]):
                     out.append((shape, kind, [w]))
     return out
@@ -581,7 +598,7 @@ def run(ctx):
         t, s = gen_program(rng, 2, ("explicit",), directed=None if i >= len(dl) // 8 else dl[i * 8:i * 8 + 2])
         items.append((t, s, ("explicit",)))
     ctx.log("running %d programs (%d scenarios)" % (len(items), sum(len(s) for _, s, _ in items)))
-    check_programs(ctx, items, stats, "gen", timeout=600 if ctx.quick() else 3000)
+    check_programs(ctx, items, stats, "gen", timeout=240 if ctx.quick() else 3000)
     ctx.log("programs=%d scenarios=%d stale=%d full collections=%d" % (
         stats["programs"], stats["evaluations"], stats["stale"], stats["full_collections"]))
 
